@@ -30,7 +30,7 @@ def units_stream(name, fields, **kw):
                   "rm -rf {wd}/gp && mkdir -p {wd}/gp && " + envs + " GOPATH={wd}/gp "
                   "GENRUN_BUILDLOG={wd}/build.log {root}/build/genrun {wd}/gp {repo} < {cases} > {obs}.main; rc=$?; rm -rf {wd}/gp; "
                   "[ $rc = 0 ] || exit $rc; "
-                  "grep -P '^[MG][A-Z0-9]*\\t' {cases} > {wd}/fresh.cases; rm -rf {wd}/gp2 && mkdir -p {wd}/gp2 && " + envs +
+                  "grep -P '^[MGR][A-Z0-9]*\\t' {cases} > {wd}/fresh.cases; rm -rf {wd}/gp2 && mkdir -p {wd}/gp2 && " + envs +
                   " GOPATH={wd}/gp2 GENRUN_NODECOY=1 GENRUN_HASHONLY=1 {root}/build/genrun {wd}/gp2 {repo} < {wd}/fresh.cases > {obs}.fresh; "
                   "rc=$?; rm -rf {wd}/gp2; [ $rc = 0 ] || exit $rc; "
                   "python3 {root}/lib/hist.py {obs}.main {obs}.fresh > {obs} && rm -f {cache}/units/*.obs && cp {obs} $k") % key
